@@ -1,12 +1,15 @@
 mod core;
 mod gast;
+mod hosts;
 mod lit;
 mod mv;
 mod nums;
 mod refparse;
 mod refsem;
+mod reval;
 mod props;
 mod subj;
+mod tspace;
 
 use crate::core::{Run, Tier};
 
